@@ -203,9 +203,16 @@ def dispatch_cases():
         r = run_guard(lambda: rows_of(f))
         out.append(dict(kind='rows', flavour=name, ok=(r[0] == 'raised') or r[1] == want2,
                         rejected=r[0] == 'raised', got=r[1]))
-    for junk in [5, None, object(), 3.5, True]:
+    # callables whose signature names none of row / rows / package cannot be interpreted as a step either
+    def unknown_name(record):
+        record['a'] = 0
+
+    junks = [(5, '5'), (None, 'None'), (object(), 'object()'), (3.5, '3.5'), (True, 'True'),
+             (lambda x: dict(x, a=0), 'lambda x'), (unknown_name, 'def f(record)'), (lambda: None, 'lambda: None'),
+             (lambda item, row: None, 'lambda item, row')]
+    for junk, label in junks:
         r = run_guard(lambda: rows_of(junk))
-        out.append(dict(kind='junk', flavour=repr(junk)[:20], ok=r[0] == 'raised', rejected=r[0] == 'raised', got=r[1]))
+        out.append(dict(kind='junk', flavour=label, ok=r[0] == 'raised', rejected=r[0] == 'raised', got=r[1]))
     return out
 
 
